@@ -191,8 +191,12 @@ func (s *sched) gate(p, kind, key, v string, ttl int) gcmd {
 
 	s.mu.Lock()
 	if old := s.parked[p]; old != nil {
+		// The call shows up at a second call-out while it is still inside the first one: the library has split it over
+		// two goroutines (e.g. a builder it no longer waits for).  Recorded, not steered: the new arrival passes through.
 		s.mu.Unlock()
-		panic(fmt.Sprintf("harness: process %s arrives at %s while parked at %s", p, kind, old.kind))
+		s.rec(Event{Ev: "doublegate", P: p, K: key, C: kind, Note: old.kind})
+
+		return gcmd{ok: true}
 	}
 
 	s.parked[p] = a
